@@ -278,14 +278,14 @@ def run(tier):
             continue
         seeds.append(p)
     lines = ["text\n", "    code\n", "* item\n", "1. item\n", "> quote\n", "```\ncode\n```\n", "a | b\n--|--\nc | d\n", "term\n: def\n", "<div>\nx\n</div>\n",
-             "[>AB]: expansion\n\nAB x AB y\n", "[?term]: gloss\n\nsome term here\n", "a {++b++} {--c--} {~~d~>e~~} f\n",
+             "# Head\n\n> : y\n\n", "term\n: def\n\n> : z\n\nHead\n====\n\n", "[>AB]: expansion\n\nAB x AB y\n", "[?term]: gloss\n\nsome term here\n", "a {++b++} {--c--} {~~d~>e~~} f\n",
              "***\n", "head\n===\n", "# head\n", "[a]: http://x\n", "[^a]: note\n\ntext[^a]\n", "*a* **b** `c` [l](u) ![i](p)\n", "x <a@b.cc> \"q\" -- ...\n"]
     always = []
     for i, l in enumerate(lines):
         p = os.path.join(seeds_dir, 'line%02d.text' % i)
         open(p, 'w').write(l)
         seeds.append(p)
-        if '[>AB]' in l or '{++' in l or '[?term]' in l:
+        if '[>AB]' in l or '{++' in l or '[?term]' in l or '> : ' in l:
             always.append(p)
     pats = []
     if quick:
